@@ -738,9 +738,11 @@ class Exec:
             if m:
                 return Closure(self.closure_by_span(m.group(1)))
             return FnItem(t)
-        mm = re.match(r'^core::num::<impl (\w+)>::(MAX|MIN)$', text)
+        mm = re.match(r'^(?:core|std)::num::<impl (\w+)>::(MAX|MIN|BITS)$', text)
         if mm:
             lo, hi = int_range(mm.group(1))
+            if mm.group(2) == 'BITS':
+                return INT_BITS[mm.group(1)]
             return hi if mm.group(2) == 'MAX' else lo
         if text in self.consts:
             return self.eval_const(text)
